@@ -151,7 +151,7 @@ impl Property for C07 {
             _ => None,
         };
         let fam = fam.unwrap_or_else(|| {
-            let n = t.weighted(&[30, 50, 20]);
+            let n = t.weighted(&[20, 35, 20, 15, 10]);
             let mut c2 = GenCfg::default();
             c2.max_toks = 4;
             Fam::Any { others: (0..n).map(|_| gen_expr(t, &c2)).collect() }
@@ -164,7 +164,7 @@ impl Property for C07 {
         if let Fam::Any { others } = &fam {
             all.extend(others.iter().cloned());
         }
-        for m in all.iter().take(6) {
+        for m in all.iter().take(7) {
             let text = render_text(m);
             let pat = pattern_of(&text);
             paths.extend(path_pool(t, m, pat.as_deref(), 1));
